@@ -33,7 +33,9 @@ def generate():
     need(re.fullmatch(r'%1' + datepart + r'\\\\\.%2\(\\\\\.gz\)\?', core(pats[1])),
          'findRotatedFiles: pattern for a non-empty suffix  base\\.DATE\\.(\\d+)\\.suffix(\\.gz)?  (got %r)' % pats[1])
     esc_frf = len(re.findall(r'QRegularExpression::escape\((baseName|suffix)\)', frf)) == 3
-    need(re.search(r'dir\.entryList\(QDir::Files', frf), 'findRotatedFiles: QDir::entryList(QDir::Files...)')
+    m = need(re.search(r'const auto entries = dir\.entryList\((QDir::Files( \| QDir::Hidden)?), QDir::Name\);', frf),
+             'findRotatedFiles: entries = dir.entryList(QDir::Files | QDir::Hidden, QDir::Name) (no name filter)')
+    hidden_frf = bool(m.group(2))
     need(re.search(r'if \(re\.match\(entry\)\.hasMatch\(\)\) \{ result\.append\(dir\.filePath\(entry\)\); \}', frf),
          'findRotatedFiles: candidates = entries matching the pattern')
     if re.search(r'std::sort\(result\.begin\(\), result\.end\(\), \[\]\(const QString &a, const QString &b\) \{ '
@@ -95,6 +97,9 @@ def generate():
     anchored = anchored and all(p.startswith('^') and p.endswith(END) for p in ip[1:])
     gz_opt = gz_opt and all('(\\\\.gz)?' in p for p in ip[1:])
     esc_fni = len(re.findall(r'QRegularExpression::escape\((baseName|dateStr|suffix)\)', fni)) == 5
+    m = need(re.search(r'const auto entries = dir\.entryList\((QDir::Files( \| QDir::Hidden)?)\);', fni),
+             'findNextIndexForDate: entries = dir.entryList(QDir::Files | QDir::Hidden) (no name filter)')
+    hidden_fni = bool(m.group(2))
     idx_max1 = bool(re.search(r'auto maxIndex = 0;', fni) and
                     re.search(r'auto index = match\.captured\(1\)\.toInt\(\); if \(index > maxIndex\) \{ maxIndex = index; \}', fni) and
                     re.search(r'return maxIndex \+ 1;', fni) and
@@ -104,10 +109,17 @@ def generate():
 
     # ---- generateRotatedFileName()
     grn = _flat(fn_body(src, 'QString generateRotatedFileName'))
-    need(re.search(r'QStringLiteral\("%1\.%2\.%3"\)\.arg\(baseName, dateStr\)\.arg\(index\)', grn) and
-         re.search(r'QStringLiteral\("%1\.%2\.%3\.%4"\)\.arg\(baseName, dateStr\)\.arg\(index\)\.arg\(suffix\)', grn) and
-         re.search(r'date\.toString\(QStringLiteral\("yyyy-MM-dd"\)\)', grn),
-         'generateRotatedFileName: base.yyyy-MM-dd.index[.suffix]')
+    need(re.search(r'date\.toString\(QStringLiteral\("yyyy-MM-dd"\)\)', grn), 'generateRotatedFileName: date as yyyy-MM-dd')
+    if re.search(r'QStringLiteral\("%1\.%2\.%3"\)\.arg\(baseName, dateStr, QString::number\(index\)\);', grn) and \
+       re.search(r'QStringLiteral\("%1\.%2\.%3\.%4"\) ?\.arg\(baseName, dateStr, QString::number\(index\), suffix\);', grn):
+        onepass = True
+    elif re.search(r'QStringLiteral\("%1\.%2\.%3"\)\.arg\(baseName, dateStr\)\.arg\(index\)', grn) and \
+            re.search(r'QStringLiteral\("%1\.%2\.%3\.%4"\) ?\.arg\(baseName, dateStr\)\.arg\(index\)\.arg\(suffix\)', grn):
+        onepass = False         # chained arg(): a place marker inside the base name is substituted again
+    else:
+        raise AnchorError('ANCHOR NOT FOUND: generateRotatedFileName: base.yyyy-MM-dd.index[.suffix] built with arg()')
+    need(re.search(r'if \(suffix\.isEmpty\(\)\) \{ rotatedName = QStringLiteral\("%1\.%2\.%3"\)', grn) and
+         re.search(r'return QDir\(baseDir\(\)\)\.filePath\(rotatedName\);', grn), 'generateRotatedFileName: two forms, placed in baseDir()')
 
     # ---- rotate()
     rot = _flat(fn_body(src, 'void rotate'))
@@ -152,6 +164,7 @@ def generate():
         victim, keep_off, b(strict), b(nonempty), newline)
     out += '  s_one_disables := %s; s_le0_keeps := %s; s_index_max1 := %s; s_name_by_cur := %s;\n' % (
         b(one), b(le0), b(idx_max1), b(by_cur))
-    out += '  s_anchored := %s; s_escaped := %s; s_gz_optional := %s; s_append := %s |}.\n' % (
+    out += '  s_anchored := %s; s_escaped := %s; s_gz_optional := %s; s_append := %s;\n' % (
         b(anchored), b(esc_frf and esc_fni), b(gz_opt), b(append))
+    out += '  s_lists_hidden := %s; s_name_onepass := %s |}.\n' % (b(hidden_frf and hidden_fni), b(onepass))
     return {'SrcRotate.v': out}
